@@ -65,6 +65,16 @@ def case(col, variant, auto_update, skip, seed):
     m3.update()
     if any(not np.allclose(np.asarray(m3.vars[k].value), v[k], rtol=1e-5, atol=1e-5) for k in v):
         bad = bad or "result depends on the auto-update setting"
+    if skip and bad is None:  # `skip: Iterable[str]`: the same names as a one-shot iterable give the same result
+        m4 = build(variant)
+        m4.auto_update = auto_update
+        m4.simulate(jax.random.PRNGKey(seed), skip=(n_ for n_ in skip))
+        m4.update()
+        diff = [k for k in v if not np.array_equal(np.asarray(m4.vars[k].value), v[k])]
+        if diff:
+            col.add({"sig": "native::simulate::skip_as_one_shot_iterable", "what": f"simulate(seed, skip=<generator over {list(skip)}>) differs from skip={list(skip)} in {diff}: "
+                     + "; ".join(f"{k} = {np.asarray(m4.vars[k].value).round(4).tolist()} (skipped: stays {before[k].round(4).tolist()})" for k in diff if k in skip), "input": {**inp, "skip_given_as": "generator"}})
+            return
     col.add({"sig": "native::simulate", "what": bad, "input": inp} if bad else None)
 
 
@@ -186,6 +196,51 @@ def integer_start_value_case(col, auto_update, seed):
                                           f"beta = {be.tolist()} (draws of N(0, exp(log_tau)): {[w.round(4).tolist() for w in want_be]})", "input": {"auto_update": auto_update, "seed": seed, "current_values": "log_tau = 0 (python int), beta = int32 zeros"}})
 
 
+def pit_hierarchy_case(col, auto_update, seed):
+    """a ~ N(0, 1); y ~ N(a, 1); u = PIT(y) (reads y's distribution node); z ~ N(u, 0.001): z is drawn at u = Phi(y - a) of the NEWLY drawn y and a"""
+    import tensorflow_probability.substrates.jax.distributions as tfd_
+    a = lsl.param(np.float32(0.0), lsl.Dist(tfd_.Normal, loc=0.0, scale=1.0), name="a")
+    y = lsl.param(np.float32(3.0), lsl.Dist(tfd_.Normal, loc=a, scale=1.0), name="y")
+    u = lsl.PIT(y, name="u")
+    z = lsl.param(np.float32(0.0), lsl.Dist(tfd_.Normal, loc=u, scale=0.001), name="z")
+    model = lsl.GraphBuilder().add(z).build_model()
+    model.auto_update = auto_update
+    model.simulate(jax.random.PRNGKey(seed))
+    model.update()
+    va, vy, vz = (float(model.vars[n].value) for n in ("a", "y", "z"))
+    want = float(tfd_.Normal(va, 1.0).cdf(vy))
+    ok = abs(vz - want) < 0.01
+    col.add(None if ok else {"sig": "native::simulate::ancestor_through_distribution_reader", "what": f"auto_update={auto_update}: z = {vz:.4f} is not a draw from N(u, 0.001) with u = Phi(y - a) = {want:.4f} at the new a = {va:.4f}, y = {vy:.4f}",
+                             "input": {"auto_update": auto_update, "seed": seed}})
+
+
+def bare_dist_case(col, auto_update, seed):
+    """distribution nodes that belong to NO variable (extra log-density terms evaluated at a variable's value node / at a data node) are not simulated: x is a
+    draw from its own distribution at the new mu, a skipped x and the data node keep their values"""
+    import tensorflow_probability.substrates.jax.distributions as tfd_
+    bad = []
+    for skip in ((), ("x",)):
+        mu = lsl.param(np.float32(0.0), lsl.Dist(tfd_.Normal, loc=0.0, scale=1.0), name="mu")
+        x = lsl.param(np.zeros(3, np.float32), lsl.Dist(tfd_.Normal, loc=mu, scale=0.001), name="x")
+        pen = lsl.Dist(tfd_.Normal, loc=100.0, scale=0.001, _name="x_penalty")
+        pen.at = x.var_value_node
+        data = lsl.Data(np.full(2, 7.0, np.float32), _name="data")
+        pen_d = lsl.Dist(tfd_.Normal, loc=-50.0, scale=0.001, _name="data_penalty")
+        pen_d.at = data
+        model = lsl.GraphBuilder().add(x, pen, pen_d).build_model()
+        model.auto_update = auto_update
+        model.simulate(jax.random.PRNGKey(seed), skip=list(skip))
+        model.update()
+        vx, vmu, vd = np.asarray(model.vars["x"].value), float(model.vars["mu"].value), np.asarray(model.nodes["data"].value)
+        if not np.array_equal(vd, np.full(2, 7.0, np.float32)):
+            bad.append(f"skip={list(skip)}: the data node a variable-less distribution is evaluated at was overwritten with {vd.tolist()}")
+        if skip and not np.array_equal(vx, np.zeros(3, np.float32)):
+            bad.append(f"skip=['x']: x was changed to {vx.tolist()}")
+        if not skip and not np.all(np.abs(vx - vmu) < 0.01):
+            bad.append(f"x = {vx.tolist()} is not a draw from N(mu = {vmu:.4f}, 0.001)")
+    col.add(None if not bad else {"sig": "native::simulate::distribution_node_without_variable", "what": f"auto_update={auto_update}: " + "; ".join(bad), "input": {"auto_update": auto_update, "seed": seed}})
+
+
 def independence_case(col, auto_update, seed):
     """every distributed variable is drawn with its OWN child of the seed: models entered with outdated nodes (value assigned while auto-update was off); models built with copy=True (the user's originals stay untouched); simulate(skip=parent) after a stored state was assigned back; shapes kept for per_obs on / off with leading sample, batch and event dimensions; two i.i.d. siblings differ, a child's noise is not its parent's"""
     a = lsl.param(np.zeros(4, np.float32), lsl.Dist(tfd.Normal, loc=0.0, scale=1.0), name="a")
@@ -224,6 +279,17 @@ def bounded(tier, seed):
     except Exception as e:
         col.add({"sig": f"native::simulate::exception::{type(e).__name__}", "what": str(e)[:200], "input": {"scenario": "shapes with per_obs on/off"}})
     for au in (True, False):
+        for sd in (seed, seed + 1, seed + 2):
+            try:
+                pit_hierarchy_case(col, au, sd)
+            except Exception as e:
+                col.add({"sig": f"native::simulate::exception::{type(e).__name__}", "what": str(e)[:200], "input": {"scenario": "hierarchy through a PIT node", "auto_update": au}})
+    for au in (True, False):
+        try:
+            bare_dist_case(col, au, seed + 17)
+        except Exception as e:
+            col.add({"sig": f"native::simulate::exception::{type(e).__name__}", "what": str(e)[:200], "input": {"scenario": "distribution nodes without a variable", "auto_update": au}})
+    for au in (True, False):
         try:
             integer_start_value_case(col, au, seed + 13)
         except Exception as e:
@@ -249,6 +315,6 @@ def bounded(tier, seed):
             col.add({"sig": f"native::simulate::exception::{type(e).__name__}", "what": str(e)[:200], "input": {"variant": v, "auto_update": a, "skip": list(s)}})
     return {"evaluations": col.evals, "distinct_nontrivial": len(combos),
             "rule": (CORE_RULE + "; " + "BOUNDED: models mu ~ N(1000, .001), log_sigma ~ N(-5, .001) (current 3.0), sigma = exp(log_sigma) cached, y (4x3) ~ N(loc, sigma) with loc = mu directly / through a weak "
-                     "variable / through a bare Calc / positional mu with keyword scale; both auto-update settings; skip sets {}, {mu}, {y}: values near the NEW parents, shapes kept, skipped "
-                     f"untouched, nothing outdated after update, same seed same result, result independent of auto_update; models entered with outdated nodes (value assigned while auto-update was off); models built with copy=True (the user's originals stay untouched); simulate(skip=parent) after a stored state was assigned back; shapes kept for per_obs on / off with leading sample, batch and event dimensions; two i.i.d. siblings and a child must not share their noise; integer-typed current values (python int, int32 zeros) replaced by the distribution's own draws; a hierarchy with a re-parameterised (Var.transform, instance and default bijector) variable in the middle. seeds {seed}.."),
+                     "variable / through a bare Calc / positional mu with keyword scale; both auto-update settings; skip sets {}, {mu}, {y} (as a list and as a generator): values near the NEW parents, shapes kept, skipped "
+                     f"untouched, nothing outdated after update, same seed same result, result independent of auto_update; models entered with outdated nodes (value assigned while auto-update was off); models built with copy=True (the user's originals stay untouched); simulate(skip=parent) after a stored state was assigned back; shapes kept for per_obs on / off with leading sample, batch and event dimensions; two i.i.d. siblings and a child must not share their noise; a hierarchy a -> y -> PIT(y) -> z (an ancestor reached through a node that reads a distribution node); distribution nodes that belong to no variable (evaluated at a variable's value node / a data node) are not simulated; integer-typed current values (python int, int32 zeros) replaced by the distribution's own draws; a hierarchy with a re-parameterised (Var.transform, instance and default bijector) variable in the middle. seeds {seed}.."),
             "samples": [{"variant": "calc", "auto_update": False, "skip": []}], "exhaustive": False, "violations": col.violations}
